@@ -12,7 +12,7 @@ U32 = (1 << 32) - 1
 NOW0 = 1_700_000_000
 ORACLE_TOKS = 9
 OPLEN = dict(H.OPLEN)
-OPLEN.update({20: 7, 21: 3, 22: 3, 23: 3})
+OPLEN.update({20: 7, 21: 3, 22: 3, 23: 5})
 OPN = dict(H.OPN)
 OPN.update({20: "set_oracle", 21: "swap_oracle_account", 22: "set_op_state", 23: "set_asset_tag"})
 EPS = Fraction(1, 10 ** 7)
@@ -258,6 +258,17 @@ class Trace:
         return [{"slots": [], "flags": 0, "tok": [1 << 62] * self.nb} for _ in range(self.c["na"])]
 
 
+DRIFT_PRECISION = 10 ** 10
+
+
+def drift_adjust(o, cum):
+    """MinimalSpotMarket::adjust_i64 / adjust_u64 on the four numbers of a Pyth message (floor)"""
+    if cum is None:
+        return o
+    return dict(o, price=o["price"] * cum // DRIFT_PRECISION, conf=o["conf"] * cum // DRIFT_PRECISION,
+                ema=o["ema"] * cum // DRIFT_PRECISION, ema_conf=o["ema_conf"] * cum // DRIFT_PRECISION)
+
+
 def walk(tr):
     """yields (op, res, banks_before, accts_before, banks_after, accts_after, now, px) — px = reference prices
     in force while the op executed"""
@@ -267,6 +278,7 @@ def walk(tr):
     fixed = [b["price"] for b in tr.c["banks"]]
     orc = [dict(o) if o else None for o in tr.c["oracles"]]
     bogus = [False] * tr.nb
+    drift = {}
     for k in range(tr.nb):
         tr.cfg[k]["tag"] = tr.c["banks"][k]["tag"]     # (op 23 retags a bank while the trace is walked)
     for op, (res, nbanks, naccts) in zip(tr.c["ops"], tr.steps):
@@ -283,7 +295,10 @@ def walk(tr):
             bogus[op[1]] = op[2] == 1
         elif op[0] == 23:
             tr.cfg[op[1]]["tag"] = op[2]       # from here on the bank is a venue bank (Drift: 9-decimal scaled balances)
-        px = [pyth_prices(orc[k], now, bogus[k]) if orc[k] is not None else fixed_prices(fixed[k]) for k in range(tr.nb)]
+            if op[2] == 4 and orc[op[1]] is not None:
+                drift = dict(drift)
+                drift[op[1]] = op[3]           # DriftPythPull: price and confidence scaled by cumulative_deposit_interest / 10^10
+        px = [pyth_prices(drift_adjust(orc[k], drift.get(k)), now, bogus[k]) if orc[k] is not None else fixed_prices(fixed[k]) for k in range(tr.nb)]
         yield op, res, banks, accts, nbanks, naccts, now, px
         banks, accts = nbanks, naccts
 
@@ -298,12 +313,13 @@ class Pred:
         self.fixed = [b["price"] for b in banks]
         self.orc = [dict(o) if o else None for o in oracles]
         self.bogus = [False] * len(banks)
+        self.drift = {}
         self.now = now
         self.pos = [dict() for _ in range(na)]      # bank index -> [a_shares, l_shares]
 
     def px(self):
-        return [pyth_prices(self.orc[k], self.now, self.bogus[k]) if self.orc[k] is not None else fixed_prices(self.fixed[k])
-                for k in range(len(self.banks))]
+        return [pyth_prices(drift_adjust(self.orc[k], self.drift.get(k)), self.now, self.bogus[k]) if self.orc[k] is not None
+                else fixed_prices(self.fixed[k]) for k in range(len(self.banks))]
 
     def slots(self, a, extra=None):
         pos = dict(self.pos[a])
